@@ -1,6 +1,6 @@
 // Native replay for C03 (binary constants): real mp::BinaryFormatter::nput writes r to a file, the real
 // mp::internal::NLReader<BinaryReader<>>::ReadConstant() reads the bytes back.
-// usage: c03_replay <double> | hex:<16 hex digits of the bit pattern>     exit 10 = not read back identically
+// usage: c03_replay <double> | hex:<16 hex digits of the bit pattern>     exit 10 = not read back identically, or the reader consumes another number of bytes than the writer produced
 #include <cstdio>
 #include <cstdlib>
 #include <cstring>
@@ -30,10 +30,14 @@ int main(int argc, char **argv) {
   mp::NLHeader h = mp::NLHeader();
   mp::NullNLHandler<int> handler;
   mp::internal::NLReader<Reader, mp::NullNLHandler<int> > nlr(reader, h, handler, 0);
-  double back = nlr.ReadConstant();
+  double back;
+  try { back = nlr.ReadConstant(); }
+  catch (const std::exception &e) { printf("VIOLATED: the reader rejects the bytes the writer produced for %.17g: %s\n", r, e.what()); return 10; }
+  size_t used = reader.ptr_ - reader.start_;
   unsigned long long br, bb; memcpy(&br, &r, 8); memcpy(&bb, &back, 8);
   bool ok = (r != r) ? (back != back) : (back == r && (br == bb || r == 0.0));
   printf("wrote %.17g (%016llx) in %zu bytes, read back %.17g (%016llx)\n", r, br, n, back, bb);
+  if (used != n) { printf("VIOLATED: the writer produced %zu bytes for the constant, the reader consumes %zu: every following item is shifted\n", n, used); return 10; }
   if (!ok) { printf("VIOLATED: the binary NL constant is not read back identically\n"); return 10; }
   return 0;
 }
